@@ -246,6 +246,10 @@ pub fn make_event(
     let pb = path.to_path_buf();
     let o1 = run_guarded(|| observe_file(&pb, probes));
     let o2 = run_guarded(|| observe_raw(bytes, probes));
+    let mut emb = crate::PREFIX.to_vec();
+    emb.extend_from_slice(bytes);
+    std::fs::write(path, &emb).unwrap();
+    let o3 = run_guarded(|| crate::observe_file_at(&pb, crate::PREFIX.len() as u64, probes));
     let nop = json!({"stage": "", "msg": "", "loc": ""});
     let strip = |o: &Value, panicked: bool| -> Value {
         let mut v = if panicked { crate::err_verdict("panic".to_string()) } else { o.clone() };
@@ -266,6 +270,8 @@ pub fn make_event(
     let f_obs = strip(&o1.act, o1.panic.is_some());
     let r_obs = strip(&o2.act, o2.panic.is_some());
     let raw_same = canon(&f_obs) == canon(&r_obs);
+    let o_obs = strip(&o3.act, o3.panic.is_some());
+    let off_same = canon(&f_obs) == canon(&o_obs);
     json!({
         "n": n,
         "mut": mutation,
@@ -277,6 +283,9 @@ pub fn make_event(
         "file": f_obs,
         "raw_same": raw_same,
         "raw": if raw_same { json!({"open": "same"}) } else { r_obs },
+        "off_same": off_same,
+        "off": if off_same { json!({"open": "same"}) } else { o_obs },
+        "off_panic": o3.panic.clone().unwrap_or_else(|| nop.clone()),
         "file_panic": o1.panic.clone().unwrap_or_else(|| nop.clone()),
         "raw_panic": o2.panic.clone().unwrap_or_else(|| nop.clone()),
         // the redundant accessors agree with the primary ones (projection consistency);
